@@ -100,7 +100,7 @@ func TestC19_DecodeFirst(t *testing.T) {
 		b := refEncode(v)
 		n := rapid.IntRange(0, 3).Draw(t, "mutations")
 		var muts []string
-		for i := 0; i < n && len(b) >= 64; i++ {
+		for i := 0; i < n && len(b) >= 32*(len(c.kinds)+2); i++ { // head and at least one tail word left to mutate
 			m := rapid.SampledFrom(byteMutations).Draw(t, "mutation")
 			muts = append(muts, m)
 			words := len(b) / 32
